@@ -54,6 +54,7 @@ type FuncContract struct {
 	Pure          bool
 	Inline        bool
 	NoHavoc       bool // "frame none": call does not modify the heap (but result is not a function of args)
+	ArithAssumed  bool // no overflow obligations for this function (results wrap as in Go)
 	PreservesArgs bool // "preserves-args": the callee does not write through pointers reachable from its arguments
 	Clauses       []*Clause
 	File          string
@@ -327,6 +328,9 @@ func (cs *Contracts) parseLines(lines []string, lineNos []int, file, pkgPath str
 				continue
 			case l == "inline":
 				cur.Inline = true
+				continue
+			case l == "arith assumed":
+				cur.ArithAssumed = true
 				continue
 			case l == "frame none":
 				cur.NoHavoc = true
